@@ -36,6 +36,29 @@ CODEGEN_MSG = ("rule-breaking program ({rule}: state-modifying builtin inside a 
                "the code generators and is skipped for functions that are not code-generated (unused imported-module function; "
                "any unreachable internal function under the venom pipeline)")
 
+
+
+def _violating_fn_reachable(where, prog):
+    try:
+        fi = int(where.split(":")[0][1:])
+    except ValueError:
+        return False
+    return fi in G.reachable_from_entry(prog["funs"])
+
+
+def codegen_key(rule, where, prog):
+    if _violating_fn_reachable(where, prog):
+        return f"c11:modifying-builtin-in-REACHABLE-constant-function-accepted:{rule}"
+    return CODEGEN_KEY
+
+
+def codegen_msg(rule, where, prog):
+    if _violating_fn_reachable(where, prog):
+        return (f"rule-breaking program ({rule}: state-modifying builtin inside a @view/@pure function that IS reachable from an "
+                "entry point) is accepted by at least one pipeline")
+    return CODEGEN_MSG.format(rule=rule)
+
+
 COQ_IMPORTS = "From Verif Require Import C11.Effects.\n"
 
 
@@ -126,7 +149,7 @@ def dynamic_check(ctx, prog, src, cfg, ext_code, rule, where, lib=None):
         kind = "codegen" if isinstance(code, VyperException) else "codegen-internal"
         return 0, 0, f"{kind}:{type(code).__name__}"
     worlds = []
-    for (num, ts, sx, sy, bal) in ((1, 1000, 11, 22, 0), (77, 5000, 5, 9, 12345)):
+    for (num, ts, sx, sy, bal) in ((1, 1000, 11, 22, 10**18), (77, 5000, 5, 9, 12345)):
         w = World(cfg, num, ts)
         if w.deploy_ext(ext_code) is None:
             return 0, 0, "ext-deploy-failed"
@@ -142,7 +165,7 @@ def dynamic_check(ctx, prog, src, cfg, ext_code, rule, where, lib=None):
     for i, f in enumerate(prog["funs"]):
         if f["vis"] != "External" or G.RANK[f["mut"]] > 1:
             continue
-        for a in (0, 1, 3):
+        for a in (0, 1, 3, 12345):
             res = []
             for w, addr in worlds:
                 before = storage_snapshot(w, addr)
@@ -335,11 +358,11 @@ def run(ctx):
                 if len(late) != len(dyn_cfgs):
                     if rule in CODEGEN_CHECKED:
                         nfail += 1
-                        ctx.violation("failing-input", CODEGEN_MSG.format(rule=rule),
+                        ctx.violation("failing-input", codegen_msg(rule, where, prog),
                                       {"source": src, "lib1.vy": lib, "rule": rule, "where": where, "rejected_by": late,
                                        "accepted_by": [c.name for c in dyn_cfgs if c.name not in [x[0] for x in late]],
                                        "how": "vyper.compiler.compile_code(source, output_formats=['bytecode'], settings=<config>, input_bundle={lib1.vy})",
-                                       "expected": "StateAccessViolation under every configuration"}, key=CODEGEN_KEY)
+                                       "expected": "StateAccessViolation under every configuration"}, key=codegen_key(rule, where, prog))
                     else:
                         mism.append({"rule": rule, "where": where, "what": "pipelines disagree on acceptance", "late": late, "source": full_src})
                 acc = False
@@ -355,10 +378,10 @@ def run(ctx):
             stats["compiler_laxer"] += 1
             if rule in CODEGEN_CHECKED:
                 nfail += 1
-                ctx.violation("failing-input", CODEGEN_MSG.format(rule=rule),
+                ctx.violation("failing-input", codegen_msg(rule, where, prog),
                               {"source": src, "lib1.vy": lib, "rule": rule, "where": where, "accepted_by": [c.name for c in dyn_cfgs],
                                "how": "vyper.compiler.compile_code(source, output_formats=['bytecode'], settings=<config>, input_bundle={lib1.vy})",
-                               "expected": "StateAccessViolation (\"Cannot ... from a constant function\")"}, key=CODEGEN_KEY)
+                               "expected": "StateAccessViolation (\"Cannot ... from a constant function\")"}, key=codegen_key(rule, where, prog))
                 continue
             mism.append({"rule": rule, "where": where, "what": "compiler accepts a program that `check` rejects (dynamic test found no misbehaviour)", "source": full_src})
         else:
